@@ -122,8 +122,14 @@ class SimReader(io.TextIOBase):
         return self.pos
 
 
-def materialise(text, suffix=".txt"):
-    """Write text byte-for-byte to a private file under /dev/shm; caller must os.unlink it immediately after use."""
+def materialise(text, suffix=".txt", path=None):
+    """Write text byte-for-byte to a private file under /dev/shm; caller must os.unlink it immediately after use.
+    ``path``: rewrite that file instead of creating a new one (same name, new content: what a reader that remembers
+    anything by file name must survive)."""
+    if path is not None:
+        with open(path, "w", newline="") as f:
+            f.write(text)
+        return path
     d = "/dev/shm" if os.path.isdir("/dev/shm") else None
     fd, path = tempfile.mkstemp(prefix=f"bcsim-{os.getpid()}-", suffix=suffix, dir=d)
     with os.fdopen(fd, "w", newline="") as f:
